@@ -3,11 +3,18 @@
 use crate::{report::Report, worker::{CaseDesc, CaseOut}, Args};
 
 pub mod c01;
+pub mod c02;
+pub mod c03;
+pub mod c06;
+pub mod cer;
 pub mod c10;
 
 pub fn dispatch(args: &Args) -> Option<Report> {
     Some(match args.prop.as_str() {
         "c01" => c01::run(args),
+        "c02" => c02::run(args),
+        "c03" => c03::run(args),
+        "c06" => c06::run(args),
         "c10" => c10::run(args),
         _ => return None,
     })
